@@ -1,5 +1,5 @@
 """C09 — ChaCha20 matches RFC 8439 and is its own inverse (constants and shape; necessary conditions)."""
-from sa.canon import canon, norm, return_expr, statements, V, C
+from sa.canon import pin, vn, canon, norm, return_expr, statements, V, C
 from sa.paths import loops
 from sa.match import comparison, const_value
 from sa.build import AnalysisBroken
@@ -33,7 +33,7 @@ def run(ck):
         if not c:
             raise AnalysisBroken('ChaCha20 anchor %s not found' % name)
         ck.touch(c[0])
-        return c[0]
+        return pin(c[0])
     g = P.global_(AN + 'kSigma')
     sig = [int(n['v']) for n in g['nodes'] if n['k'] == 'IntegerLiteral']
     want_sig = [int.from_bytes(b'expand 32-byte k'[i:i + 4], 'little') for i in range(0, 16, 4)]
@@ -83,7 +83,7 @@ def run(ck):
     lp = [l for l in loops(bl) if any(bl.is_in(i, l) for i in bl.walk() if bl.nodes[i].get('callee') == AN + 'quarter_round')]
     c = comparison(bl, bl.nodes[lp[0]]['cond']) if lp else None
     ck.ob('C09.block', 'C09.block/ten-double-rounds', bool(c) and c[0] == '<' and const_value(bl, c[2]) == 10, bl.loc(), 'the double round runs 10 times (20 rounds)')
-    ws = [bl.nodes[i] for i in bl.walk() if bl.nodes[i]['k'] == 'VarDecl' and bl.nodes[i].get('n') == 'working_state']
+    ws = [bl.nodes[i] for i in bl.walk() if bl.nodes[i]['k'] == 'VarDecl' and vn(bl, bl.nodes[i]) == 'working_state']
     ck.ob('C09.block', 'C09.block/working-copy', len(ws) == 1 and norm(canon(bl, ws[0]['init'])) == V('state'), bl.loc(), 'the rounds run on a copy of the initial state')
     ff = ('+=', ('idx', V('working_state'), V('i')), ('idx', V('state'), V('i'))) in sts
     out = [i for i in bl.walk() if bl.nodes[i].get('callee') == AN + 'store32_le']
@@ -106,7 +106,7 @@ def run(ck):
     other_w = [w for w in local_writes(ap, ap.params[4]['d']) if w not in incs]
     ck.ob('C09.apply', 'C09.apply/one-block-per-counter', okb and same_loop and not other_w and 'unsigned int' in ap.params[4]['t'], ap.loc(),
           'each loop iteration generates one block with the current counter and then increments the 32-bit counter exactly once')
-    decl = {ap.nodes[i]['n']: norm(canon(ap, ap.nodes[i]['init'])) for i in ap.walk() if ap.nodes[i]['k'] == 'VarDecl' and 'init' in ap.nodes[i]}
+    decl = {vn(ap, ap.nodes[i]): norm(canon(ap, ap.nodes[i]['init'])) for i in ap.walk() if ap.nodes[i]['k'] == 'VarDecl' and 'init' in ap.nodes[i]}
     okz = decl.get('block_size') == ('call', 'min', C(64), ('-', ('mcall', 'size', V('input')), V('processed'))) and \
         ('+=', V('processed'), V('block_size')) in sa_
     ck.ob('C09.apply', 'C09.apply/block-length', okz, ap.loc(), 'block_size = min(64, input.size() - processed); processed advances by it (found %s)' % (decl.get('block_size'),))
@@ -127,11 +127,11 @@ def run(ck):
           'derive_counter reads chunk_id[0..3] little endian')
     sites = {}
     for name in ('encrypt', 'decrypt'):
-        f = PC.fn(NS + 'CryptoManager::' + name)
+        f = pin(PC.fn(NS + 'CryptoManager::' + name))
         ck.touch(f)
         ap_ = [i for i in f.walk() if f.nodes[i].get('callee') == NS + 'ChaCha20::apply']
-        cnt = [f.nodes[i] for i in f.walk() if f.nodes[i]['k'] == 'VarDecl' and f.nodes[i].get('n') == 'counter']
-        ok = len(ap_) == 1 and len(cnt) == 1 and norm(canon(f, cnt[0]['init'])) == ('call', 'derive_counter', V(f.params[0]['n'])) and \
+        cnt = [f.nodes[i] for i in f.walk() if f.nodes[i]['k'] == 'VarDecl' and vn(f, f.nodes[i]) == 'counter']
+        ok = len(ap_) == 1 and len(cnt) == 1 and norm(canon(f, cnt[0]['init'])) == ('call', 'derive_counter', V(vn(f, f.params[0]))) and \
             norm(canon(f, f.call_args(ap_[0])[4])) == V('counter') and norm(canon(f, f.call_args(ap_[0])[0])) == ('f', 'key_')
         sites[name] = ok
         ck.ob('C09.counter', 'C09.counter/' + name, ok, f.loc(), '%s applies ChaCha20 with key_, the given nonce and derive_counter(chunk_id)' % name)
